@@ -34,6 +34,10 @@ type fileHandle struct {
 	gen    int
 }
 
+// fsCache holds concrete file-system images built once per worker process
+// (deterministic prefixes), keyed by the harness.
+var fsCache = map[string]*memFS{}
+
 var (
 	fsys      *memFS
 	fsGen     int
@@ -358,6 +362,28 @@ func callVerifEnv(fr *frame, name string, args []value) (value, bool) {
 		}
 		return nil, true
 	case "verifFSMarkSynced":
+		return nil, true
+	case "verifFSCacheLoad":
+		key := goString(args[0])
+		if img, ok := fsCache[key]; ok {
+			fsys = img.clone()
+			fsGen++
+			return true, true
+		}
+		return false, true
+	case "verifFSCacheSave":
+		key := goString(args[0])
+		for _, f := range fsys.files {
+			for _, b := range f.data {
+				if _, ok := b.(uint8); !ok {
+					panic(pathEnd{"harness-error", "verifFSCacheSave: file system holds symbolic bytes"})
+				}
+			}
+		}
+		if len(P.dec) != 0 {
+			panic(pathEnd{"harness-error", "verifFSCacheSave after a symbolic decision"})
+		}
+		fsCache[key] = fsys.clone()
 		return nil, true
 	case "verifFSFileLen":
 		p := cleanPath(goString(args[0]))
